@@ -168,4 +168,23 @@ reg(
     TRUSTED + "Python float()/int() are the shared text-to-number primitives; only well-formed files are generated (no claim outside the grammar).",
 )
 
+reg(
+    "C17",
+    "DESIGN.md section 4 C17",
+    "property-based testing (Hypothesis): generated pairs at pose / vertex / edge / graph level with a drawn relation (copy, far-below, far-above, structural, mixed-type); truth-table oracle, symmetry, totality",
+    "Generated-input search over pairs of poses, vertices, odometry/landmark/custom edges and graphs: a copy or a single stored component perturbed by a factor >= 1e3 below the "
+    "tolerance compares equal in both directions; a perturbation >= 1e3 above it or any structural difference (id, type even with identical numbers, sizes, vertex ids, edge "
+    "class, information shape, measurement/offset type, offset id, graph size/order) compares unequal in both directions; no pair raises. Found and repaired defects F5 (44892c1) and F6 (fc311c6).",
+    TRUSTED + "Only same-category pairs (pose/pose, vertex/vertex, edge/edge, graph/graph) are required to be comparable.",
+)
+reg(
+    "C18",
+    "DESIGN.md section 4 C18",
+    "exhaustive enumeration of the finite product (itertools.product, sharded over 16 workers) against a validity predicate written from the documentation, plus Hypothesis-generated graphs for id binding under arbitrary list order / ids",
+    "Exhaustive on every run: all 183,960 combinations of edge kind x vertex count x endpoint pose types x measurement type x offset type x information shape x id presence are "
+    "constructed through Graph(); construction raises iff the documented validity predicate is false, accepted edges are bound to the listed vertex objects and have a finite chi2. "
+    "Generated part: edges are bound by id irrespective of list order for negative / sparse / > 2^63 ids; an unknown id is rejected. Found and repaired defect F7.",
+    TRUSTED + "Validity is an assert (python -O out of scope). The landmark pairing clause (SE2->R2, SE3->R3, R2->R2, R3->R3) is the only clause beyond the two docstring sentences; it has its own signature.",
+)
+
 NOT_YET = {}
